@@ -49,6 +49,10 @@ func c02mType(r *rand.Rand, depth int) reflect.Type {
 	case k == 12:
 		return reflect.ArrayOf(r.Intn(4), c02mType(r, depth-1))
 	case k < 15:
+		if r.Intn(3) == 0 {
+			// integer keys of every width, signed and unsigned
+			return reflect.MapOf(c02mBasic[1+r.Intn(10)], c02mType(r, depth-1))
+		}
 		return reflect.MapOf(reflect.TypeOf(""), c02mType(r, depth-1))
 	default:
 		return c02mStruct(r, depth-1)
@@ -112,7 +116,14 @@ func c02mTypeWire(w *strings.Builder, t reflect.Type) {
 		fmt.Fprintf(w, "a%d:", t.Len())
 		c02mTypeWire(w, t.Elem())
 	case reflect.Map:
-		w.WriteByte('m')
+		switch t.Key().Kind() {
+		case reflect.Int, reflect.Int8, reflect.Int16, reflect.Int32, reflect.Int64:
+			fmt.Fprintf(w, "k%d:", t.Key().Bits())
+		case reflect.Uint, reflect.Uint8, reflect.Uint16, reflect.Uint32, reflect.Uint64:
+			fmt.Fprintf(w, "K%d:", t.Key().Bits())
+		default:
+			w.WriteByte('m')
+		}
 		c02mTypeWire(w, t.Elem())
 	case reflect.Struct:
 		fmt.Fprintf(w, "r%d:", t.NumField())
@@ -122,6 +133,17 @@ func c02mTypeWire(w *strings.Builder, t reflect.Type) {
 			c02mTypeWire(w, t.Field(i).Type)
 		}
 	}
+}
+
+// a map key as the document spells it (integer keys: their decimal text)
+func c02mKeyText(k reflect.Value) string {
+	switch k.Kind() {
+	case reflect.Int, reflect.Int8, reflect.Int16, reflect.Int32, reflect.Int64:
+		return strconv.FormatInt(k.Int(), 10)
+	case reflect.Uint, reflect.Uint8, reflect.Uint16, reflect.Uint32, reflect.Uint64:
+		return strconv.FormatUint(k.Uint(), 10)
+	}
+	return k.String()
 }
 
 func c02mGenWire(w *strings.Builder, x interface{}) bool {
@@ -218,10 +240,11 @@ func c02mValWire(w *strings.Builder, v reflect.Value) bool {
 			return true
 		}
 		keys := v.MapKeys()
-		sort.Slice(keys, func(i, j int) bool { return keys[i].String() < keys[j].String() })
+		sort.Slice(keys, func(i, j int) bool { return c02mKeyText(keys[i]) < c02mKeyText(keys[j]) })
 		fmt.Fprintf(w, "M%d:", len(keys))
 		for _, k := range keys {
-			fmt.Fprintf(w, "%d:%s", k.Len(), k.String())
+			kt := c02mKeyText(k)
+			fmt.Fprintf(w, "%d:%s", len(kt), kt)
 			if !c02mValWire(w, v.MapIndex(k)) {
 				return false
 			}
@@ -262,7 +285,7 @@ func c02mSanitize(r *rand.Rand, v reflect.Value, depth int) {
 		}
 	case reflect.Map:
 		keys := v.MapKeys() // in a fixed order: the values drawn must not depend on the iteration order of the map
-		sort.Slice(keys, func(i, j int) bool { return keys[i].String() < keys[j].String() })
+		sort.Slice(keys, func(i, j int) bool { return c02mKeyText(keys[i]) < c02mKeyText(keys[j]) })
 		for _, k := range keys {
 			x := reflect.New(v.Type().Elem()).Elem()
 			x.Set(v.MapIndex(k))
@@ -357,6 +380,35 @@ func c02mDoc(r *rand.Rand, t reflect.Type, depth int) string {
 		var parts []string
 		for i := 0; i < n; i++ {
 			k := c02Strings[r.Intn(len(c02Strings))]
+			if kk := t.Key().Kind(); kk != reflect.String {
+				// integer keys: mostly in range and as Marshal writes them; sometimes another spelling, the edge of the range, or no integer
+				bits := uint(t.Key().Bits())
+				signed := kk >= reflect.Int && kk <= reflect.Int64
+				switch r.Intn(10) {
+				case 0:
+					k = []string{`"+1"`, `"01"`, `"-0"`, `"00"`, `"+0"`, `"-01"`, `"1_0"`, `"0x10"`, `" 1"`, `"1 "`, `""`, `"-"`, `"1.0"`, `"1e1"`, `"abc"`, `"\u0031"`, `"9223372036854775808"`, `"18446744073709551616"`, `"-9223372036854775809"`}[r.Intn(19)]
+				case 1:
+					if signed {
+						k = `"` + strconv.FormatInt([]int64{-1 << (bits - 1), 1<<(bits-1) - 1}[r.Intn(2)], 10) + `"`
+					} else {
+						k = `"` + strconv.FormatUint(^uint64(0)>>(64-bits), 10) + `"`
+					}
+				case 2:
+					if signed && bits < 64 {
+						k = `"` + strconv.FormatInt([]int64{-1<<(bits-1) - 1, 1 << (bits - 1)}[r.Intn(2)], 10) + `"`
+					} else if !signed && bits < 64 {
+						k = `"` + strconv.FormatUint(1<<bits, 10) + `"`
+					} else {
+						k = `"-1"`
+					}
+				default:
+					if signed {
+						k = `"` + strconv.FormatInt(int64(r.Intn(7))-3, 10) + `"`
+					} else {
+						k = `"` + strconv.Itoa(r.Intn(5)) + `"`
+					}
+				}
+			}
 			if i > 0 && r.Intn(4) == 0 {
 				k = strings.TrimSpace(parts[0][:strings.Index(parts[0], ":")])
 			}
